@@ -5,11 +5,15 @@ use std::convert::Infallible;
 
 use rand_core::{TryCryptoRng, TryRng};
 
-/// Hands out scripted draws.  Each scripted draw is one byte string that must be
-/// consumed by exactly one `fill_bytes` request of the same length; anything
-/// else is recorded (`mismatch`, `overrun`) and served from a fallback stream.
+/// Hands out scripted draws as one byte stream: the scripted byte strings are
+/// concatenated and served in order, however the library chunks its requests
+/// (one 64-byte request and two 32-byte requests see the same bytes).  What is
+/// recorded: bytes left over (`unused`), requests past the end of the script
+/// (`overrun`, served from a fallback stream) and, for information only, requests
+/// that do not start and end on a scripted boundary (`mismatch`).
 pub struct ScriptRng {
-    pub draws: Vec<Vec<u8>>,
+    stream: Vec<u8>,
+    bounds: Vec<usize>,
     pub pos: usize,
     pub requests: Vec<usize>,
     pub served: Vec<Vec<u8>>,
@@ -20,10 +24,17 @@ pub struct ScriptRng {
 
 impl ScriptRng {
     pub fn new(draws: Vec<Vec<u8>>) -> Self {
-        ScriptRng { draws, pos: 0, requests: vec![], served: vec![], overrun: 0, mismatch: 0, fallback: 0x9e3779b97f4a7c15 }
+        let mut stream = vec![];
+        let mut bounds = vec![0usize];
+        for d in &draws {
+            stream.extend_from_slice(d);
+            bounds.push(stream.len());
+        }
+        ScriptRng { stream, bounds, pos: 0, requests: vec![], served: vec![], overrun: 0, mismatch: 0, fallback: 0x9e3779b97f4a7c15 }
     }
+    /// scripted bytes never requested
     pub fn unused(&self) -> usize {
-        self.draws.len().saturating_sub(self.pos)
+        self.stream.len().saturating_sub(self.pos)
     }
     fn fb(&mut self) -> u8 {
         self.fallback ^= self.fallback << 13;
@@ -33,20 +44,21 @@ impl ScriptRng {
     }
     fn fill(&mut self, dst: &mut [u8]) {
         self.requests.push(dst.len());
-        if self.pos < self.draws.len() {
-            let d = self.draws[self.pos].clone();
-            self.pos += 1;
-            if d.len() != dst.len() {
-                self.mismatch += 1;
+        let start = self.pos;
+        let mut over = false;
+        for i in 0..dst.len() {
+            if self.pos < self.stream.len() {
+                dst[i] = self.stream[self.pos];
+                self.pos += 1;
+            } else {
+                over = true;
+                dst[i] = self.fb();
             }
-            for (i, b) in dst.iter_mut().enumerate() {
-                *b = if i < d.len() { d[i] } else { 0 };
-            }
-        } else {
+        }
+        if over {
             self.overrun += 1;
-            for b in dst.iter_mut() {
-                *b = self.fb();
-            }
+        } else if !(self.bounds.contains(&start) && self.bounds.contains(&self.pos)) {
+            self.mismatch += 1;
         }
         self.served.push(dst.to_vec());
     }
